@@ -1201,7 +1201,9 @@ func (t *twins) opDamagedQuery(p *c19Pool, branch, format string) *kernel.Violat
 		path := filepath.Join(side.dir, id.String(), "data", objs[k%len(objs)].id.String()+".zng")
 		data, err := os.ReadFile(path)
 		if err != nil {
-			panic("harness: data object not where expected: " + err.Error())
+			// Vacuumed through another branch: nothing left to damage.
+			t.out.Probe("object-to-damage-already-vacuumed")
+			return nil
 		}
 		restore = append(restore, saved{path, data})
 		if truncate {
